@@ -75,6 +75,8 @@ def memcheck(mon, seed):
 def extra(mon, tier, seed):
     miri.run_wsm_under_miri("C14", (0, 8), seed, mon, "header byte soup through every decrypting entry point, 8 seeds")
     miri_wsx_hostile(mon, seed)
+    import asan
+    asan.run("C14", seed, mon)
     if os.path.exists(WSX_RUG):
         memcheck(mon, seed)
     else:
